@@ -11,13 +11,23 @@
   homomorphism for delimiter-balanced lists with its corollaries `resolve_dup` (a repeated
   template is circular only if one copy is — the D16 clause) and `resolve_text_preserved`.
 
-  NOT proved (statements kept visible at the end of the file): `cycle_iff_onStack`,
-  `resolve_terminates` / `resolve_terminates_flat_partial`, `resolve_refines_evalT`.
+  Also proved (see the sections below and the status block at the end of the file):
+  `cycle_iff_onStack` (true cycles only), termination for delimiter-balanced tables and under
+  the finite-reach hypothesis, the REFUTATION of general termination
+  (`resolve_diverges_counterexample`: a 2-entry table with unbalanced values on which no fuel
+  suffices; the Go code overflows its stack), and `resolve_refines_evalT` on the flat fragment.
 -/
 import YtkProofs.Resolver
+import YtkProofs.ResolverSem
+import YtkProofs.ResolverTerm
+import YtkProofs.ResolverDiverge
+import YtkProofs.ResolverEval
 
 namespace Ytk.C11
 open Ytk.Resolver
+
+def tA : Toks := [.ch 'a']
+def phA : Toks := [.pre, .ch 'a', .suf]
 
 variable (norm : Toks → Toks) (tbl : Table)
 
@@ -133,10 +143,196 @@ theorem resolve_text_preserved {t₁ s t₂ : Toks} {seen : List Toks} {r : Res}
   rw [resolve_text_prepend norm n tbl _ seen h₁,
     resolve_fuel_mono norm tbl (Nat.le_succ n) _ _ (by rw [hn]; exact hr), hn]
 
+/-! ## circular references are true cycles (`Reaches`, `Dep`: YtkProofs/ResolverSem.lean) -/
+
+/-- `cycle o` is returned only if the scanner arrives at a placeholder with text `o` while a
+    placeholder with text `o` is still being expanded (`o` on the expansion stack) — for every
+    fuel, stack, table and `norm`.  `Reaches` never looks at how often a text occurs: its stack
+    is extended exactly for the expansion of a placeholder's key part and value, and is back to
+    the old stack behind the placeholder. -/
+theorem cycle_only_if_onStack (n : Nat) (s : Toks) (seen : List Toks) (o : Toks)
+    (h : resolve norm n tbl s seen = .cycle o) : Reaches norm tbl seen s o :=
+  reaches_of_cycle n s seen o h
+
+/-- conversely, with enough fuel a placeholder met on the stack is reported (and stays reported
+    for every larger fuel) -/
+theorem cycle_if_onStack {s : Toks} {seen : List Toks} {o : Toks} (h : Reaches norm tbl seen s o) :
+    ∃ n, ∀ m, n ≤ m → resolve norm m tbl s seen = .cycle o :=
+  (cycle_of_reaches h).fuel
+
+/-- `cycle_iff_onStack` of DESIGN §6 (the fuel is quantified: for a FIXED fuel the direction
+    from right to left is false, small fuel gives `outOfFuel`). -/
+theorem cycle_iff_onStack (s : Toks) (seen : List Toks) (o : Toks) :
+    (∃ n, resolve norm n tbl s seen = .cycle o) ↔ Reaches norm tbl seen s o :=
+  ⟨fun ⟨n, h⟩ => reaches_of_cycle n s seen o h, fun h => ⟨_, (cycle_of_reaches h).choose_spec.1⟩⟩
+
+/-- True cycles only, in terms of the dependency relation between placeholder texts
+    (`Dep p q`: `q` is a placeholder in the text `p` or in the value / default `p` is replaced by):
+    a circular reference reported by `Resolve(s)` (empty initial stack) names a text `o` that is
+    reached from a placeholder of `s` and DEPENDS ON ITSELF through at least one expansion step. -/
+theorem cycle_is_true_cycle (n : Nat) (s o : Toks) (h : resolveTop norm n tbl s = .cycle o) :
+    (∃ p, TopPh s p ∧ (p = o ∨ Relation.TransGen (Dep norm tbl) p o)) ∧
+      Relation.TransGen (Dep norm tbl) o o := by
+  obtain ⟨p, hp, hpo, hc⟩ := reaches_dep (reaches_of_cycle n s [] o h)
+  exact ⟨⟨p, hp, hpo⟩, by simpa using hc⟩
+
+/-- the same for an arbitrary initial stack: on the stack already, or a true cycle -/
+theorem cycle_onStack_or_true_cycle (n : Nat) (s : Toks) (seen : List Toks) (o : Toks)
+    (h : resolve norm n tbl s seen = .cycle o) :
+    o ∈ seen ∨ Relation.TransGen (Dep norm tbl) o o :=
+  (reaches_dep (reaches_of_cycle n s seen o h)).choose_spec.2.2
+
+/-! ## termination (YtkProofs/ResolverTerm.lean) and its failure (YtkProofs/ResolverDiverge.lean)
+
+  The general statement of DESIGN §6
+
+      resolve_terminates : ∀ finite tbl s, ∃ n, ∀ m ≥ n, resolve id m tbl s [] ≠ .outOfFuel      -- REFUTED
+
+  is FALSE (`resolve_diverges_counterexample`, `resolve_terminates_refuted`): values that are not
+  delimiter-balanced (an unterminated `${`, a stray `}`) glue into placeholder texts that occur
+  nowhere in the table or the input, the re-scanned default produces a new text in every round
+  and the stack test never fires.  The Go code dies with "fatal error: stack overflow" on the
+  same table (not the Circular-placeholder panic; not recoverable).
+
+  What IS proved: termination under the finite-reach hypothesis (every placeholder text met lies
+  in one finite list), and — the instance that matters — for every table whose values are all
+  delimiter-balanced, for every input (balanced or not) and every stack. -/
+
+/-- Termination under the precise extra hypothesis: an invariant `Inv` of the strings the
+    resolver is called on (closed under placeholder texts, rests, looked-up values / defaults:
+    `FiniteReach`) such that the text of every placeholder found in such a string lies in the
+    finite list `W`.  Measure: (entries of `W` not on the stack, token count), lexicographic. -/
+theorem resolve_terminates_of_finite_reach_partial {Inv : Toks → Prop} {W : List Toks}
+    (H : FiniteReach norm tbl Inv W) (s : Toks) (seen : List Toks) (hs : Inv s) :
+    ∃ n, ∀ m, n ≤ m → resolve norm m tbl s seen ≠ .outOfFuel := by
+  obtain ⟨r, hr⟩ := resolves_of_finiteReach H s seen hs
+  obtain ⟨n, hn⟩ := hr.fuel
+  exact ⟨n, fun m hm => by rw [hn m hm]; exact hr.ne⟩
+
+/-- `resolve_terminates` for GRAMMAR TABLES: if every table value is delimiter-balanced (every
+    prefix is closed inside the value; `norm = id`), resolution of ANY token list `s` — balanced
+    or with an unterminated tail — on ANY stack ends: with a text or with a circular reference.
+    `_partial`: the statement for arbitrary finite tables is refuted below; `norm` is `id`
+    (no re-lexing of glued delimiter halves). -/
+theorem resolve_terminates_balanced_partial (tbl : Table) (hb : ∀ kv ∈ tbl, Balanced kv.2)
+    (s : Toks) (seen : List Toks) :
+    ∃ n, ∀ m, n ≤ m → resolve id m tbl s seen ≠ .outOfFuel := by
+  obtain ⟨r, hr⟩ := resolves_balanced tbl hb s seen
+  obtain ⟨n, hn⟩ := hr.fuel
+  exact ⟨n, fun m hm => by rw [hn m hm]; exact hr.ne⟩
+
+/-- the flat fragment as a corollary: table values without any prefix token (plain text values;
+    the input may nest placeholders and defaults arbitrarily) -/
+theorem resolve_terminates_flat_partial (tbl : Table) (hflat : ∀ kv ∈ tbl, Tok.pre ∉ kv.2)
+    (s : Toks) (seen : List Toks) :
+    ∃ n, ∀ m, n ≤ m → resolve id m tbl s seen ≠ .outOfFuel :=
+  resolve_terminates_balanced_partial tbl (fun kv h => Balanced.of_noPre (hflat kv h)) s seen
+
+/-- the placeholder texts a balanced table can ever make the resolver look at: those present in
+    the input and in the table values (`allPhs`) — the content of the finite-reach hypothesis -/
+theorem balanced_finite_reach (tbl : Table) (hb : ∀ kv ∈ tbl, Balanced kv.2) (s : Toks) :
+    FiniteReach id tbl (fun t => allPhs t ⊆ allPhs s ++ tbl.flatMap fun kv => allPhs kv.2)
+      (allPhs s ++ tbl.flatMap fun kv => allPhs kv.2) :=
+  finiteReach_balanced hb fun kv hkv _ hq =>
+    List.mem_append_right _ (List.mem_flatMap.mpr ⟨kv, hkv, hq⟩)
+
+/-- COUNTEREXAMPLE to general termination.  Table  o = "${",  a = "${o}a}}${:${a}w",
+    input "${:${a}${a}}" (default delimiters; the empty key is unknown): NO fuel suffices. -/
+theorem resolve_diverges_counterexample (fuel : Nat) :
+    resolveTop id fuel
+      [([.ch 'o'], [.pre]),
+       ([.ch 'a'], [.pre, .ch 'o', .suf, .ch 'a', .suf, .suf, .pre, .sep, .pre, .ch 'a', .suf, .ch 'w'])]
+      [.pre, .sep, .pre, .ch 'a', .suf, .pre, .ch 'a', .suf, .suf] = .outOfFuel :=
+  Div.diverges fuel
+
+/-- the first witness found (4 keys: o = "${", c = "}", b = "${o}u:${o}b${c}",
+    e = "w${o}e${c}${o}c${c}", input "${u:${b}${e}${c}}"), kernel-evaluated for ONE fuel only
+    (every terminating case of the harness' exhaustive streams ends within 13 calls); the proof
+    for all fuels is given for the 2-key witness above -/
+theorem resolve_diverges_witness4 :
+    resolveTop id 40
+      [([.ch 'o'], [.pre]), ([.ch 'c'], [.suf]),
+       ([.ch 'b'], [.pre, .ch 'o', .suf, .ch 'u', .sep, .pre, .ch 'o', .suf, .ch 'b', .pre, .ch 'c', .suf]),
+       ([.ch 'e'], [.ch 'w', .pre, .ch 'o', .suf, .ch 'e', .pre, .ch 'c', .suf, .pre, .ch 'o', .suf,
+          .ch 'c', .pre, .ch 'c', .suf])]
+      [.pre, .ch 'u', .sep, .pre, .ch 'b', .suf, .pre, .ch 'e', .suf, .pre, .ch 'c', .suf, .suf]
+      = .outOfFuel := by
+  decide +kernel
+
+/-- hence the general `resolve_terminates` is refuted -/
+theorem resolve_terminates_refuted :
+    ¬ ∀ (tbl : Table) (s : Toks), ∃ n, ∀ m, n ≤ m → resolve id m tbl s [] ≠ .outOfFuel := by
+  intro h
+  obtain ⟨n, hn⟩ := h Div.tblD (Div.D 0)
+  exact hn n (Nat.le_refl n) (Div.diverges n)
+
+/-- the token lists of the witness are what the lexer makes of the Go-side strings -/
+theorem nonvacuous_witness_lex :
+    let d : Delims := ⟨['$', '{'], ['}'], [':']⟩
+    lex d ['$', '{'] = [.pre] ∧
+    lex d ['$', '{', 'o', '}', 'a', '}', '}', '$', '{', ':', '$', '{', 'a', '}', 'w'] =
+      [.pre, .ch 'o', .suf, .ch 'a', .suf, .suf, .pre, .sep, .pre, .ch 'a', .suf, .ch 'w'] ∧
+    lex d ['$', '{', ':', '$', '{', 'a', '}', '$', '{', 'a', '}', '}'] =
+      [.pre, .sep, .pre, .ch 'a', .suf, .pre, .ch 'a', .suf, .suf] := by
+  decide
+
+/-- the witness is outside the balanced domain (both values), the cyclic tables used above are
+    inside it -/
+theorem nonvacuous_balanced_domain :
+    ¬ Balanced [Tok.pre] ∧
+    ¬ Balanced [.pre, .ch 'o', .suf, .ch 'a', .suf, .suf, .pre, .sep, .pre, .ch 'a', .suf, .ch 'w'] ∧
+    (∀ kv ∈ [(tA, [Tok.pre, .ch 'b', .suf]), ([.ch 'b'], phA)], Balanced kv.2) := by
+  refine ⟨by decide, by decide, ?_⟩
+  intro kv h
+  simp only [List.mem_cons, List.not_mem_nil, or_false] at h
+  rcases h with rfl | rfl <;> decide
+
+/-! ## agreement with a recursive-descent evaluator (YtkProofs/ResolverEval.lean)
+
+  `Tmpl` is the AST of the FLAT fragment of the grammar (`done | lit text rest | ph key rest |
+  phd key default rest`: keys are plain text, defaults and table values are templates of the
+  fragment, table keys are plain text), `render` its token list, `evalT` the reference semantics
+  (known key → evaluated value; unknown key → evaluated default, else verbatim; circular iff the
+  placeholder text is being expanded; the default is evaluated before the key is looked up).
+
+  Full statement (NOT proved): the same for templates whose keys are templates themselves
+  (`ph (key : Tmpl) …`).  With
+  nested keys the resolved key text can contain separators that come out of substituted values
+  or of verbatim blocks, so the resolver's split at the FIRST separator of the resolved text no
+  longer follows the AST; an extra hypothesis on the table (separator-free outputs) is needed. -/
+
+/-- `resolve_refines_evalT`, flat fragment: whenever the reference evaluator ends — with a text or
+    with a circular reference — the resolver ends with the SAME result on the rendered template
+    (for every fuel from some point on, for every stack).  Note that the resolver scans an
+    evaluated default a second time; the proof shows that evaluated texts are inert (`Inert`). -/
+theorem resolve_refines_evalT_flat_partial {tt : TTable} (hT : tt.WF) (n : Nat) (t : Tmpl)
+    (st : List Toks) (ht : t.WF) (h : evalT tt n t st ≠ .outOfFuel) :
+    ∃ k, ∀ m, k ≤ m → resolve id m (toTable tt) (render t) st = evalT tt n t st :=
+  (evalT_refines hT n t st _ ht rfl h).1.fuel
+
+/-- both directions, fuel-free: the resolver ends with `r` (a text or a circular reference) on
+    the rendered template iff the reference evaluator ends with `r` -/
+theorem resolve_iff_evalT_flat_partial {tt : TTable} (hT : tt.WF) (t : Tmpl) (st : List Toks)
+    (ht : t.WF) (r : Res) :
+    Resolves id (toTable tt) (render t) st r ↔ ∃ m, evalT tt m t st = r ∧ r ≠ .outOfFuel :=
+  resolves_iff_evalT hT t st ht r
+
+/-- same string, or both circular (with the same text) -/
+theorem resolve_refines_evalT_flat_cases_partial {tt : TTable} (hT : tt.WF) (n : Nat) (t : Tmpl)
+    (st : List Toks) (ht : t.WF) :
+    (∀ out, evalT tt n t st = .ok out → Resolves id (toTable tt) (render t) st (.ok out)) ∧
+    (∀ o, evalT tt n t st = .cycle o → Resolves id (toTable tt) (render t) st (.cycle o)) :=
+  ⟨fun _ e => (evalT_refines hT n t st _ ht e (by simp)).1,
+   fun _ e => (evalT_refines hT n t st _ ht e (by simp)).1⟩
+
+/-- the evaluated text of a template contains nothing a further scan would change -/
+theorem evalT_idempotent_partial {tt : TTable} (hT : tt.WF) (n : Nat) (t : Tmpl) (st : List Toks)
+    (ht : t.WF) {out : Toks} (h : evalT tt n t st = .ok out) :
+    Resolves id (toTable tt) out st (.ok out) :=
+  ((evalT_refines hT n t st _ ht h (by simp)).2 out rfl).resolves
+
 /-! ## Non-vacuity and witnesses (norm = id) -/
 
-def tA : Toks := [.ch 'a']
-def phA : Toks := [.pre, .ch 'a', .suf]
 
 /-- `${a}-${a}` with a = 1 resolves to `1-1` (the pinned tree reported a circular reference: D16). -/
 theorem nonvacuous_dup_ok :
@@ -164,28 +360,53 @@ theorem nonvacuous_balanced : Balanced (phA ++ .ch '-' :: phA) ∧ ¬ Balanced [
     Resolves id [(tA, [.ch '1'])] phA [] (.ok [.ch '1']) := by
   refine ⟨by decide, by decide, ⟨5, by decide, by simp⟩⟩
 
+/-- `Reaches` holds on the true cycle a = `${a}` … -/
+theorem nonvacuous_reaches : Reaches id [(tA, phA)] [] phA tA :=
+  cycle_only_if_onStack id _ 10 phA [] tA (by decide)
+
+/-- … and on no text at all for the doubled placeholder `${a}-${a}` with a = 1 -/
+theorem nonvacuous_dup_not_reaches (o : Toks) :
+    ¬ Reaches id [(tA, [.ch '1'])] [] (phA ++ .ch '-' :: phA) o := by
+  intro h
+  have h₁ := cycle_of_reaches h
+  have h₂ : Resolves id [(tA, [.ch '1'])] (phA ++ .ch '-' :: phA) [] (.ok [.ch '1', .ch '-', .ch '1']) :=
+    ⟨10, by decide, by simp⟩
+  cases h₁.unique h₂
+
+/-- the flat fragment on a non-trivial instance: `${u:${a}-${u}}|${a}` with a = `x${b:y}`:
+    the reference evaluator gives `xy-${u}|xy`, hence so does the resolver -/
+theorem nonvacuous_evalT :
+    let tt : TTable := [(tA, .lit [.ch 'x'] (.phd [.ch 'b'] (.lit [.ch 'y'] .done) .done))]
+    let t : Tmpl := .phd [.ch 'u'] (.ph tA (.lit [.ch '-'] (.ph [.ch 'u'] .done)))
+      (.lit [.ch '|'] (.ph tA .done))
+    evalT tt 10 t [] = .ok [.ch 'x', .ch 'y', .ch '-', .pre, .ch 'u', .suf, .ch '|', .ch 'x', .ch 'y'] ∧
+    resolveTop id 10 (toTable tt) (render t) =
+      .ok [.ch 'x', .ch 'y', .ch '-', .pre, .ch 'u', .suf, .ch '|', .ch 'x', .ch 'y'] := by
+  decide
+
+/-- … and on a cyclic one: a = `${b:${a}}` -/
+theorem nonvacuous_evalT_cycle :
+    let tt : TTable := [(tA, .phd [.ch 'b'] (.ph tA .done) .done)]
+    evalT tt 10 (.ph tA .done) [] = .cycle tA ∧
+    resolveTop id 10 (toTable tt) (render (.ph tA .done)) = .cycle tA := by
+  decide
+
 /-
-  STATED, NOT PROVED (DESIGN §6 C11) — covered by the harness only (exhaustive token strings
-  up to length 7/9 against 7 tables incl. self/mutual cycles; grammar templates against
-  random cyclic tables; step budget):
+  STATUS of the statements of DESIGN §6 C11 that were open:
 
-  * cycle_iff_onStack :
-      resolve n tbl s seen = .cycle o  ↔  Reaches tbl seen s o
-    where `Reaches` is the inductive relation "scanning s left to right, the expansion of some
-    placeholder (through key resolution, looked-up values and defaults) arrives at a placeholder
-    with text o while a placeholder with text o is still being expanded (o on the stack)".
-    The "only if" direction for the top-level stack is visible in `resolve_one` (cycle ph is
-    produced exactly by `seen.contains ph`, and `seen` is restored after each placeholder);
-    the repetition clause is proved (`resolve_dup_cycle_only_if`).
+  * cycle_iff_onStack — PROVED (`cycle_only_if_onStack` for every fuel, `cycle_if_onStack`,
+    `cycle_iff_onStack` with the fuel quantified, `cycle_is_true_cycle`).
 
-  * resolve_terminates : GrammarTable tbl → ∃ n, ∀ m ≥ n, resolve m tbl s [] ≠ .outOfFuel
-    fallback resolve_terminates_flat_partial (tables whose values have no nested-key
-    placeholders).  Neither is proved: defaults are re-scanned after their key part was
-    resolved, so the set of placeholder texts reachable from a finite table is not obviously
-    closed; no counter-example was found by the harness (lookup budget never hit).
+  * resolve_terminates (arbitrary finite tables) — REFUTED (`resolve_diverges_counterexample`,
+    `resolve_terminates_refuted`); proved for balanced tables (`resolve_terminates_balanced_partial`),
+    plain-text tables (`resolve_terminates_flat_partial`) and under the finite-reach hypothesis
+    (`resolve_terminates_of_finite_reach_partial`), all for every stack.  Not covered: `norm ≠ id`
+    (re-lexing of glued delimiter halves) in the balanced instance.
 
-  * resolve_refines_evalT : agreement with the AST evaluator on grammar-generated templates;
-    the harness compares with an independently written Go recursive-descent reference instead.
+  * resolve_refines_evalT — PROVED on the flat fragment (`resolve_refines_evalT_flat_partial`:
+    plain keys, template defaults, template values; `resolve_iff_evalT_flat_partial` gives both
+    directions).  Not proved: nested keys.  The harness compares with
+    an independently written Go recursive-descent reference on the full grammar.
 -/
 
 end Ytk.C11
